@@ -12,7 +12,7 @@ CHECKS = {
         "differential testing against reference hashes (Hypothesis inputs + exhaustive length sweep + second interpreter)",
         "Every generated (bytes, seed) is hashed by the three public functions through six deliveries and compared with "
         "independent pure-Python implementations of the published algorithms; lengths 0..264 are swept exhaustively for "
-        "five byte patterns and six boundary seeds. Exploration is the right level: the input space is unbounded, the oracle is exact.",
+        "five byte patterns and six boundary seeds; zero-filled keys of 4 GiB and more are compared with the reference's closed form. Exploration is the right level: the input space is unbounded, the oracle is exact.",
         "Trusts the pure-Python references (anchored to 39 published vectors at start-up; an anchor failure is a harness error).",
         "7/C11",
     ),
@@ -149,7 +149,8 @@ CHECKS.update({
     "C20": (
         "fault enumeration: every prefix length of every generated saved file is loaded through every loader",
         "Crash points of save() are the strict prefixes of the written file; all of them are enumerated for each class, several shapes and "
-        "loaders; every one must raise, and the complete file must load to the saved sketch.",
+        "loaders (also in an interpreter started with -O); files of 1 MB and more are cut at the last 4096 lengths, around member boundaries and at drawn lengths; "
+        "every one must raise, and the complete file must load to the saved sketch.",
         "Assumes a crash leaves a prefix of the final file; crafted table contents embedding a foreign archive are out of scope.",
         "7/C20",
     ),
